@@ -255,7 +255,17 @@ def check_chain(mtjs, fmts, dev=None):
                 else codecs.encode_tigerxml(mts, **lay) if fmts[0] == 'tigerxml' else codecs.encode_brackets(mts, **lay))
     if fmts[0] == 'tigerxml' and src_enc:
         text = codecs.encode_tigerxml(mts, encoding=src_enc)
-    path = os.path.join(d, 'f0.' + EXT[fmts[0]])
+    # file-level features: CRLF line ends, no final newline, odd directory / file names, relative paths
+    if dev.get('eol') == 'crlf':
+        text = text.replace('\n', '\r\n')
+    if dev.get('final') == 'none':
+        text = text.rstrip('\r\n')
+    d_in = d_out = d
+    if dev.get('path'):
+        d_in, d_out = os.path.join(d, 'in put \u00fc (1)'), os.path.join(d, 'out dir [2]*')
+        os.makedirs(d_in)
+        os.makedirs(d_out)
+    path = os.path.join(d_in, 'f0.' + EXT[fmts[0]])
     data = text.encode(src_enc or 'utf-8')
     if dev.get('gz') == 'members':
         # a gzip file of three members (cat a.gz b.gz c.gz, pigz -i, bgzip), cut at arbitrary bytes
@@ -275,12 +285,25 @@ def check_chain(mtjs, fmts, dev=None):
     paren = False
     cur_enc = src_enc
     for step, dest in enumerate(fmts[1:]):
-        dpath = os.path.join(d, 'f%d.%s' % (step + 1, EXT[dest]))
+        dpath = os.path.join(d_out, 'f%d.%s' % (step + 1, EXT[dest]))
         last = step == len(fmts) - 2
-        (st, so, se, exc), argv = convert(path, fmts[step], dpath, dest,
-                                          src_enc=cur_enc, dest_enc=dest_enc if last else None,
-                                          src_opts=dev.get('src_opts', ()) if step == 0 else (),
-                                          dest_opts=dev.get('dest_opts', ()) if last else ())
+        if dev.get('dest_exists'):
+            # the destination exists already (an older, longer file): it must be replaced
+            with open(dpath, 'w', encoding='utf-8') as f:
+                f.write('#BOS 999 leftover of an earlier run\n' * 3000)
+        cpath, cdpath, old_cwd = path, dpath, None
+        if dev.get('path') == 'relative':
+            old_cwd = os.getcwd()
+            os.chdir(d)
+            cpath, cdpath = os.path.relpath(path, d), os.path.join('.', os.path.relpath(dpath, d))
+        try:
+            (st, so, se, exc), argv = convert(cpath, fmts[step], cdpath, dest,
+                                              src_enc=cur_enc, dest_enc=dest_enc if last else None,
+                                              src_opts=dev.get('src_opts', ()) if step == 0 else (),
+                                              dest_opts=dev.get('dest_opts', ()) if last else ())
+        finally:
+            if old_cwd is not None:
+                os.chdir(old_cwd)
         if dest == 'brackets' and disc:
             if 'brackets_skipdisco' in dev.get('dest_opts', ()):
                 if st != 0:
@@ -736,6 +759,13 @@ def run_chunk(chunk):
                 for enc in ('latin-1', 'utf-16'):
                     devs.append((uni, [src, 'export4'], {'gz': True, 'src_enc': enc}))
                     devs.append((uni, [src, 'tigerxml'], {'gz': True, 'src_enc': enc, 'dest_enc': enc}))
+            for src in SRC:
+                srcP = P[:3] if src != 'brackets' else Pc[:3]
+                for dest, fdev in (('export4', {'eol': 'crlf'}), ('tigerxml', {'final': 'none'}), ('export3', {'path': 'odd'}),
+                                   ('discobrackets', {'path': 'relative'}), ('export3', {'dest_exists': True}),
+                                   ('tigerxml', {'dest_exists': True, 'path': 'relative', 'eol': 'crlf'})):
+                    devs.append((srcP, [src, dest], fdev))
+                devs.append((srcP, [src, 'export4', 'tigerxml'], {'path': 'odd', 'dest_exists': True}))
             for src in ('export3', 'tigerxml'):
                 for dest in ('export3', 'tigerxml'):
                     devs.append((P[:3], [src, dest], {'src_opts': ['continuous'], 'expect': 'continuous'}))
